@@ -161,6 +161,7 @@ structure StartFacts {V} (ops : ValOps V) (r : Runner V) (H : List (Done V)) (n 
     ∃ p, p ∈ lookupList n r.ctrlPreds ∧ ∃ o, (p, o) ∈ H ∧ RoutesC r p o n
   dataRes : ∀ p, p ∈ lookupList n r.dataPreds → (∃ o, (p, o) ∈ H) ∨ SkippedS r H p
   ctrlRes : ∀ p, p ∈ lookupList n r.ctrlPreds → (∃ o, (p, o) ∈ H) ∨ SkippedS r H p
+  hasCtrl : lookupList n r.ctrlPreds ≠ []
   exact : ∃ vals : List (Key × V), (akeys vals).Nodup ∧
     (∀ p w, (p, w) ∈ vals ↔ ((p, w) ∈ H ∧ RoutesD r p w n)) ∧
     ((vals = [] ∧ v = ops.zero) ∨ collect ops (vals.map (·.2)) = .ready v)
